@@ -70,6 +70,12 @@ def case_strategy(draw):
             t = dict(copy.deepcopy(terms[-1]), position=t["position"],
                      use_fmmu=t["use_fmmu"])
         terms.append(t)
+    if draw(st.integers(0, 5)) == 0:
+        # a frame beyond 1 kB: the first terminal has a large process image
+        if not terms[0]["in"]:
+            terms[0]["in"].append({"name": "i8", "size": "H",
+                                   "via": "packet"})
+        terms[0]["in_pad"] = draw(st.sampled_from([1000, 1024, 1100]))
     cands = [(ti, d, v["name"]) for ti, t in enumerate(terms)
              for d in ("in", "out") for v in t[d]]
     if not cands:
